@@ -124,7 +124,7 @@ def sysop_arm_methods(trait_names):
         ms = set(m for m in re.findall(r"\.\s*(\w+)\(", arms[i + 1]) if m in trait_names)
         if "open_file" in ms:
             ms.discard("open_file")
-            ms.add("open_file:w" if re.search(r"open_file\([^)]*true\)", arms[i + 1]) else "open_file:r")
+            ms.add("open_file:w" if re.search(r"open_file\(.*?,\s*true\s*\)", arms[i + 1], re.S) else "open_file:r")
         res.setdefault(arms[i], set()).update(ms)
     return res
 
